@@ -101,7 +101,15 @@ struct ScriptedServer
         int hi          = fcntl(fd, F_DUPFD_CLOEXEC, 900);
         static auto cl0 = sim::real<int (*)(int)>("close");
         cl0(fd);
-        if (hi < 0 || ::bind(hi, (sockaddr*)&sa, sizeof sa) != 0 || ::listen(hi, 16) != 0)
+        // an explicit port below the kernel's ephemeral range (port 0 would be drawn from that range, which runs dry
+        // when thousands of closed connections linger in TIME_WAIT); another harness process may hold a port: try on
+        bool bound = false;
+        for (unsigned attempt = 0; hi >= 0 && attempt < 400 && !bound; ++attempt)
+        {
+            sa.sin_port = htons(static_cast<uint16_t>(30100 + (unsigned(getpid()) * 17u + attempt * 13u) % 2500u));
+            bound       = ::bind(hi, (sockaddr*)&sa, sizeof sa) == 0;
+        }
+        if (!bound || ::listen(hi, 16) != 0)
             throw sim::HarnessError { std::string("scripted server cannot listen: ") + strerror(errno) };
         socklen_t len = sizeof sa;
         getsockname(hi, (sockaddr*)&sa, &len);
